@@ -99,6 +99,8 @@ class C06(PropBase):
                 # equal value seen earlier"
                 vals += [tw for tw in (hist.value_twin(rng, x, numeric=False) for x in list(vals)) if tw is not None]
             pool.append((t, vals))
+        # (the cold comparison below would otherwise re-find the union-order alias that C08/C12 record)
+        gen.one_order_per_member_set(world, [t for t, _ in pool])
         steps = []
         n = rng.randint(1, 14 if tier == "quick" else 40)
         fk = [k for k in sw if k in ("clear", "shrink", "clear_typing")]
